@@ -421,6 +421,7 @@ def check(tree, rep, tier='quick', seed=0):
     from ..core import get_core
     from .. import corerules as R
     R.k28_threshold_lookup_pure(get_core(tree), rep)
+    R.k21_typed_values(get_core(tree), rep)      # the amount a line shows is its definition's answer rounded to the line's places by round(): nothing else rounds
     from ..linerules import l2c_generators_consumed_once
     l2c_generators_consumed_once(tree, rep)      # an aggregate over an already consumed generator adds nothing: operands silently missing
     from ..linerules import l3_lines_are_read_not_recomputed
